@@ -355,7 +355,12 @@ class IcapStub:
             keep = self._act(c, rec, beh)
         finally:
             if gate:
+                # give squid a moment to digest the reply before the held-back virgin bytes start to flow
+                time.sleep(0.03 * VERIF_SLOW)
                 self.event(gate).set()
+        if keep == "fin":
+            self._fin(c)
+            return False
         if not keep:
             return False
         # drain what squid still sends for this transaction so that the connection can be reused
@@ -374,8 +379,8 @@ class IcapStub:
         act = beh.get("act", "204")
         if act == "x":
             rec["did"].append("close")
-            self._fin(c)
-            return False
+            self._half_close(c)
+            return "fin"
         if act == "r":
             rec["did"].append("reset")
             self._reset(c)
@@ -404,8 +409,6 @@ class IcapStub:
                     c.sendall(wire[pos:pos + step])
                     pos += step
                     n += 1
-                    if gate and n == 1:
-                        self.event(gate).set()
                     time.sleep(0.002)
             else:
                 c.sendall(wire)
@@ -417,14 +420,20 @@ class IcapStub:
             self._reset(c)
             return False
         if end == "c" or cut is not None:
-            self._fin(c)
-            return False
+            self._half_close(c)
+            return "fin"
         return True
 
-    def _fin(self, c):
-        """orderly close: FIN now, then discard what the peer still sends (closing with unread data would turn the FIN into a RST)"""
+    @staticmethod
+    def _half_close(c):
         try:
             c.shutdown(socket.SHUT_WR)
+        except OSError:
+            pass
+
+    def _fin(self, c):
+        """orderly close: FIN was sent (_half_close), now discard what the peer still sends (closing with unread data would turn the FIN into a RST)"""
+        try:
             c.settimeout(self.T)
             while c.recv(65536):
                 pass
